@@ -1,6 +1,6 @@
 import Heathcliff.Proofs.C14S
 import Heathcliff.Proofs.C14T
-import Heathcliff.Proofs.GenSerD
+import Heathcliff.Proofs.GenSerK
 /-
   C14  Serialization round-trips every object exactly, sizes exact, across contexts.
 
@@ -335,6 +335,12 @@ theorem gen_ct_serialize_full_produces_enc : type_of% @HC.GS.c14g_ct_serialize_f
     for every ciphertext of the level's shape (`CtShape`: counts, `k × N` coefficients, coefficients representable — e.g. reduced) -/
 theorem gen_ct_serialize_produces_enc : type_of% @HC.GS.c14g_ct_serialize := @HC.GS.c14g_ct_serialize
 
+/-- KEY SETS: generated `KSwitchKeys::serialize` (parms id, then the context-dependent `Vec<Vec<PublicKey>>`, each key through the compact
+    ciphertext writer; `RelinKeys` / `GaloisKeys` are the same function) appends exactly `kswitchC.enc`; a missing key is an empty inner
+    vector.  The generated code works on views of the keys: `PkView ctx v x` = "`v` is the view of the model ciphertext `x`, whose level the
+    context finds, with `u64` moduli, a real scheme and the level's shape" -/
+theorem gen_kswitch_serialize_produces_enc : type_of% @HC.GS.c14g_kswitch_serialize := @HC.GS.c14g_kswitch_serialize
+
 /-- reduced residues are representable (the `fit` clause of `CtShape` from `limit_width`) -/
 theorem gen_ct_shape_fit_of_reduced : type_of% @HC.GS.gd_fit_of_reduced := @HC.GS.gd_fit_of_reduced
 
@@ -386,5 +392,13 @@ example :
     | 1, _ =>
       have : x = 256 ∨ x = 7 := by simpa using hx
       rcases this with rfl | rfl <;> decide
+/-- a key set with one present key (size-2 BFV ciphertext, one 1-byte modulus, N = 2) and one missing entry:
+    32 + 8 + (8 + (32 + 8 + 1 + 1 + 4)) + 8 = 102 bytes, equal to the model's encoding -/
+example :
+    let lv : Level := ⟨[1, 2, 3, 4], 1, 2, [17]⟩
+    let ctx : Ctx := ⟨[lv], 5, 2⟩
+    let c : Ct := ⟨[1, 2, 3, 4], 2, true, 4607182418800017408, 1, [[[3, 16]], [[5, 6]]], []⟩
+    HC.GenS.kswitch_serialize HC.GS.idealStream ctx ⟨[1, 2, 3, 4], [[HC.GS.ctvOfCt lv c], []]⟩ []
+      = (.ok 102, (kswitchC (ctC ctx (fun _ _ => []))).enc ⟨[1, 2, 3, 4], [[c], []]⟩) := by rfl
 
 end HC.C14
